@@ -89,6 +89,11 @@ func c07Worker(args []string) int {
 		fmt.Printf("C07-ERROR start: %v\n", err)
 		return 4
 	}
+	if phase == "fail" {
+		nd.Store.mu.Lock()
+		nd.Store.FailAt = killAt
+		nd.Store.mu.Unlock()
+	}
 	// versions served while recovering: each must be a prefix boundary of W
 	seen := map[uint64]bool{}
 	stableSince := time.Now()
@@ -231,6 +236,20 @@ func c07Worker(args []string) int {
 		} else {
 			snaps, err = nd.N.AddBulk(raw)
 		}
+		if err != nil && phase == "fail" {
+			// the store refused this insertion's write; a node that survives this must not have consumed versions
+			fmt.Printf("C07-STOREFAULT-SURVIVED entry %d: %v\n", i, err)
+			failed := i
+			_ = failed
+			// the same entry is proposed again (a client would retry): it must get the versions it would have got
+			if len(raw) == 1 && i%2 == 0 {
+				var s *balloon.Snapshot
+				s, err = nd.N.Add(raw[0])
+				snaps = []*balloon.Snapshot{s}
+			} else {
+				snaps, err = nd.N.AddBulk(raw)
+			}
+		}
 		if err != nil {
 			fmt.Printf("C07-ERROR add entry %d: %v\n", i, err)
 			return 4
@@ -349,6 +368,9 @@ func RunC07(c *lib.Ctx) {
 			points = append(points, c07point{ID: fmt.Sprintf("k%d-%s", k, ph), Seed: wseed, N: n, Kind: "enumerated", KillAt: int64(k), Phase: ph})
 		}
 	}
+	for _, k := range []int64{1, int64(n / 2), int64(n)} {
+		points = append(points, c07point{ID: fmt.Sprintf("storefail-k%d", k), Seed: wseed, N: n, Kind: "storefail", KillAt: k, Phase: "fail"})
+	}
 	r := c.Rand("timed")
 	for t := 0; t < c.Q(8, 80); t++ {
 		points = append(points, c07point{ID: fmt.Sprintf("timed%d", t), Seed: wseed, N: n, Kind: "timed", Phase: "none", Delay: r.Range(300, 2500)})
@@ -378,7 +400,7 @@ func RunC07(c *lib.Ctx) {
 		// run 1: dies
 		var r1 c07run
 		switch pt.Kind {
-		case "enumerated", "double":
+		case "enumerated", "double", "storefail":
 			r1 = c07Spawn(c, dir, port, pt.Seed, pt.N, pt.KillAt, pt.Phase, 0, "run1")
 		case "timed":
 			r1 = c07Spawn(c, dir, port, pt.Seed, pt.N, 0, "none", pt.Delay, "run1")
@@ -390,6 +412,13 @@ func RunC07(c *lib.Ctx) {
 		if !r1.killed {
 			if pt.Kind == "timed" && strings.Contains(r1.out, "C07-DONE") {
 				c.Count("timed_kill_arrived_after_completion", 1)
+			} else if pt.Kind == "storefail" && (strings.Contains(r1.out, "panic:") || strings.Contains(r1.out, "C07-DONE")) {
+				// a store write error either stops the node (it must then recover like after a crash) or is survived
+				if strings.Contains(r1.out, "C07-DONE") {
+					c.Count("store_faults_survived_by_the_node", 1)
+				} else {
+					c.Count("store_faults_that_stopped_the_node", 1)
+				}
 			} else {
 				c.Inconclusive(fmt.Sprintf("%s: first run did not die as planned (code %d): %s", pt.ID, r1.code, tail(r1.out, 200)))
 				return
